@@ -21,19 +21,54 @@ def strip_comments(src):
     return re.sub(r"//[^\n]*", "", src)
 
 
+NUM = r"[-+]?(?:\d+\.?\d*|\.\d+)(?:[eE][-+]?\d+)?[fFlL]?"
+IGNORED = re.compile(r"^(?:tapkee::)?(?:Logging::|LoggingSingleton::|timed_context\b|\(void\))")
+WHILE_NONEMPTY = (r"while\s*\(\s*(?:!\s*heap\.empty\(\)|heap\.empty\(\)\s*==\s*false|false\s*==\s*heap\.empty\(\)|"
+                  r"heap\.empty\(\)\s*!=\s*true|!\s*\(\s*heap\.empty\(\)\s*\))\s*\)")
+
+
+def number(lit):
+    return Fraction(re.sub(r"[fFlL]$", "", lit))
+
+
+def statements(text):
+    """top-level `;`-separated statements without whitespace; logging / timing statements dropped"""
+    out = []
+    for st in text.split(";"):
+        st1 = re.sub(r"\s+", "", st)
+        if st1 and not IGNORED.match(st.strip()):
+            out.append(st1)
+    return out
+
+
+def aliases(body):
+    """simple local aliases `const IndexType source = landmarks[k];` anywhere in the overload"""
+    al = {}
+    for m in re.finditer(r"(?:const\s+)?(?:IndexType|int|auto|size_t|std::size_t)\s+(?:const\s+)?(\w+)\s*=\s*(landmarks\[k\]|k)\s*;", body):
+        al[m.group(1)] = m.group(2)
+    return al
+
+
 def flag_index(body, what):
     """the `f[...] = true;` statement between the initial heap insertion and the while loop"""
-    m = re.search(r"heap\.insert\(\s*([^,]+?)\s*,\s*0\.0\s*\)\s*;\s*#endif(.*?)while\s*\(\s*!heap\.empty\(\)\s*\)", body, flags=re.S)
+    m = re.search(r"heap\.insert\(\s*([^,]+?)\s*,\s*" + NUM + r"\s*\)\s*;\s*#endif(.*?)" + WHILE_NONEMPTY, body, flags=re.S)
     if not m:
         raise ValueError("%s: initial heap insertion / while loop not found" % what)
+    al = aliases(body)
     src_expr = re.sub(r"\s+", "", m.group(1))
-    stmts = [s.strip() for s in m.group(2).split(";") if s.strip()]
-    if len(stmts) != 1:
-        raise ValueError("%s: expected exactly one statement between the insertion and the loop, found %r" % (what, stmts))
-    fm = re.fullmatch(r"f\[\s*(.+?)\s*\]\s*=\s*true", stmts[0])
-    if not fm:
-        raise ValueError("%s: unrecognised statement %r" % (what, stmts[0]))
-    return src_expr, re.sub(r"\s+", "", fm.group(1))
+    src_expr = al.get(src_expr, src_expr)
+    flags = []
+    for st in statements(m.group(2)):
+        am = re.fullmatch(r"(?:const)?(?:IndexType|int|auto|size_t|std::size_t)(?:const)?(\w+)=(landmarks\[k\]|k)", st)
+        if am:
+            continue                        # an alias declaration (already collected)
+        fm = re.fullmatch(r"f\[(.+?)\]=true", st)
+        if not fm:
+            raise ValueError("%s: unrecognised statement %r between the insertion and the loop" % (what, st))
+        flags.append(al.get(fm.group(1), fm.group(1)))
+    if len(flags) != 1:
+        raise ValueError("%s: expected exactly one frontier-flag statement, found %r" % (what, flags))
+    return src_expr, flags[0]
 
 
 def overloads(src):
@@ -60,13 +95,61 @@ def lean_rat(x):
     return "(%d) (%d)" % (x.numerator, x.denominator)
 
 
+def matrix_step(st, v):
+    """one whitespace-free statement about matrix `v` (a regex-escaped name) -> step text, or None"""
+    st = st.replace(".eval()", "")
+    core = r"\(?%s\+%s\.transpose\(\)\)?" % (v, v)
+    if (re.fullmatch(r"%s=%s\.array\(\)\.(?:square|abs2)\(\)" % (v, v), st) or re.fullmatch(r"%s=%s\.cwiseAbs2\(\)" % (v, v), st)
+            or re.fullmatch(r"%s=%s\.cwiseProduct\(%s\)" % (v, v, v), st) or re.fullmatch(r"%s\.array\(\)=%s\.array\(\)\.square\(\)" % (v, v), st)
+            or re.fullmatch(r"%s=%s\.array\(\)\*%s\.array\(\)" % (v, v, v), st)):
+        return ".square"
+    if re.fullmatch(r"centerMatrix\(%s\)" % v, st):
+        return ".center"
+    m = re.fullmatch(r"%s(?:\.array\(\))?\*=(%s)" % (v, NUM), st) or re.fullmatch(r"%s=%s\*(%s)" % (v, v, NUM), st) or \
+        re.fullmatch(r"%s=(%s)\*%s" % (v, NUM, v), st)
+    if m:
+        return ".scale " + lean_rat(number(m.group(1)))
+    m = re.fullmatch(r"%s(?:\.array\(\))?/=(%s)" % (v, NUM), st) or re.fullmatch(r"%s=%s/(%s)" % (v, v, NUM), st)
+    if m:
+        return ".scale " + lean_rat(1 / number(m.group(1)))
+    for pat in (r"%s=\(*%s\)*/(%s)\)*", r"%s=\(*%s\)*\*(%s)\)*"):
+        m = re.fullmatch(pat % (v, core, NUM), st)
+        if m:
+            c = number(m.group(1))
+            c = 1 / c if "/" in pat else c
+            if c == Fraction(1, 2):
+                return ".symmetrise"
+    m = re.fullmatch(r"%s=\(*(%s)\*\(*%s\)*" % (v, NUM, core), st)
+    if m and number(m.group(1)) == Fraction(1, 2):
+        return ".symmetrise"
+    if re.fullmatch(r"%s\+=%s\.transpose\(\)" % (v, v), st):
+        return "+transpose"         # first half of a two-statement symmetrisation
+    return None
+
+
+def fold_symmetrise(steps, what):
+    """`m += m.transpose(); m /= 2` (or `*= 0.5`) is one symmetrisation"""
+    out = []
+    i = 0
+    while i < len(steps):
+        if steps[i] == "+transpose":
+            if i + 1 < len(steps) and steps[i + 1] == ".scale (1) (2)":
+                out.append(".symmetrise")
+                i += 2
+                continue
+            raise ValueError("%s: `+= transpose()` not followed by a halving" % what)
+        out.append(steps[i])
+        i += 1
+    return out
+
+
 def isomap_steps(src):
     m = re.search(r"__TAPKEE_IMPLEMENTATION\(Isomap\)(.*?)__TAPKEE_END_IMPLEMENTATION", src, flags=re.S)
     if not m:
         raise ValueError("IsomapImplementation not found")
     body = m.group(1)
-    m = re.search(r"(\w+)\s*=\s*compute_shortest_distances_matrix\([^;]*\)\s*;(.*?)EigendecompositionResult\s+\w+\s*=\s*eigendecomposition_via\(\s*(\w+)\s*,\s*(\w+)\s*,",
-                  body, flags=re.S)
+    m = re.search(r"(\w+)\s*=\s*compute_shortest_distances_matrix\([^;]*\)\s*;(.*?)(?:EigendecompositionResult|const\s+auto|auto)\s+\w+\s*=\s*"
+                  r"eigendecomposition_via\(\s*(\w+)\s*,\s*(\w+)\s*,", body, flags=re.S)
     if not m:
         raise ValueError("embed(): geodesic matrix / eigendecomposition_via not found")
     var, mid, strategy, arg = m.groups()
@@ -75,23 +158,12 @@ def isomap_steps(src):
     if strategy != "LargestEigenvalues":
         raise ValueError("embed(): unexpected eigen strategy %r" % strategy)
     steps = []
-    v = re.escape(var)
-    for st in [s.strip() for s in mid.split(";") if s.strip()]:
-        st1 = re.sub(r"\s+", "", st)
-        if re.fullmatch(r"%s=%s\.array\(\)\.square\(\)" % (v, v), st1):
-            steps.append(".square")
-        elif re.fullmatch(r"centerMatrix\(%s\)" % v, st1):
-            steps.append(".center")
-        elif re.fullmatch(r"%s\.array\(\)\*=(-?[0-9.]+)" % v, st1):
-            lit = re.fullmatch(r"%s\.array\(\)\*=(-?[0-9.]+)" % v, st1).group(1)
-            steps.append(".scale " + lean_rat(Fraction(lit)))
-        elif (re.fullmatch(r"%s=\(?\(%s\+%s\.transpose\(\)\)/2(\.0)?\)?(\.eval\(\))?" % (v, v, v), st1) or
-              re.fullmatch(r"%s=\(?\(?0?\.5\*\(%s\+%s\.transpose\(\)\)\)?\)?(\.eval\(\))?" % (v, v, v), st1) or
-              re.fullmatch(r"%s=\(?\(%s\+%s\.transpose\(\)\)\*0?\.5\)?(\.eval\(\))?" % (v, v, v), st1)):
-            steps.append(".symmetrise")
-        else:
+    for st in statements(mid):
+        step = matrix_step(st, re.escape(var))
+        if step is None:
             raise ValueError("embed(): unrecognised statement %r" % st)
-    return steps
+        steps.append(step)
+    return fold_symmetrise(steps, "embed()")
 
 
 def dense_symmetrises(src):
@@ -99,32 +171,78 @@ def dense_symmetrises(src):
     if not m:
         raise ValueError("eigendecomposition_impl_dense not found")
     pre, arg = m.groups()
-    stm = [re.sub(r"\s+", "", s) for s in pre.split(";") if s.strip()]
-    stm = [s for s in stm if not s.startswith("timed_context")]
-    if stm == ["DenseSymmetricMatrixdense_wm=wm", "dense_wm+=dense_wm.transpose().eval()", "dense_wm/=2.0"] and arg == "dense_wm":
+    stm = statements(pre)
+    if not stm or not re.fullmatch(r"(?:DenseSymmetricMatrix|DenseMatrix|auto)%s=wm" % re.escape(arg), stm[0]):
+        raise ValueError("eigendecomposition_impl_dense: unrecognised preamble %r" % stm)
+    steps = []
+    for st in stm[1:]:
+        step = matrix_step(st, re.escape(arg))
+        if step is None:
+            raise ValueError("eigendecomposition_impl_dense: unrecognised statement %r" % st)
+        steps.append(step)
+    steps = fold_symmetrise(steps, "eigendecomposition_impl_dense")
+    if steps == [".symmetrise"]:
         return True
-    if stm == ["DenseSymmetricMatrixdense_wm=wm"] and arg == "dense_wm":
+    if steps == []:
         return False
-    raise ValueError("eigendecomposition_impl_dense: unrecognised preamble %r" % stm)
+    raise ValueError("eigendecomposition_impl_dense: unexpected preamble steps %r" % steps)
 
 
-def generate(repo):
+def previous(path):
+    """what the last generated file says (used when a part of the source cannot be parsed)"""
+    try:
+        t = open(path).read()
+    except OSError:
+        return {}
+    out = {}
+    m = re.search(r"def landmarkFlag \(r l : Nat\) : Nat := (\w)", t)
+    if m:
+        out["flag"] = m.group(1)
+    m = re.search(r"def isomapSteps : List Step := \[(.*?)\]", t)
+    if m:
+        out["steps"] = [x.strip() for x in m.group(1).split(",") if x.strip()]
+    m = re.search(r"def denseSolverSymmetrises : Bool := (\w+)", t)
+    if m:
+        out["sym"] = m.group(1) == "true"
+    return out
+
+
+def generate(repo, fallback_path=None, notes=None):
+    """`fallback_path`: the previously generated file.  A part of the source that cannot be parsed keeps its previous
+    value and is reported in `notes` (the exact model/implementation correspondence then decides whether behaviour
+    changed); without a previous value the error is raised."""
     inc = os.path.join(repo, "include", "tapkee")
-    routines = strip_comments(open(os.path.join(inc, "routines", "isomap.hpp")).read())
-    (sig1, b1), (sig2, b2) = overloads(routines)
-    if "Landmarks" in sig1 or "Landmarks" not in sig2:
-        raise ValueError("overload order changed")
-    src1, flag1 = flag_index(b1, "first overload")
-    src2, flag2 = flag_index(b2, "landmark overload")
-    names = {"k": "r", "landmarks[k]": "l"}
-    if src1 != "k" or src2 != "landmarks[k]":
-        raise ValueError("unexpected source vertex expressions %r / %r" % (src1, src2))
-    if flag1 != "k":
-        raise ValueError("first overload: unexpected frontier flag index %r" % flag1)
-    if flag2 not in names:
-        raise ValueError("landmark overload: unexpected frontier flag index %r" % flag2)
-    steps = isomap_steps(strip_comments(open(os.path.join(inc, "methods", "isomap.hpp")).read()))
-    sym = dense_symmetrises(strip_comments(open(os.path.join(inc, "routines", "eigendecomposition.hpp")).read()))
+    prev = previous(fallback_path) if fallback_path else {}
+    notes = notes if notes is not None else []
+
+    def part(key, fn):
+        try:
+            return fn()
+        except (ValueError, OSError) as ex:
+            if key in prev:
+                notes.append("%s: %s (kept previous value %r)" % (key, ex, prev[key]))
+                return prev[key]
+            raise
+
+    def get_flag():
+        routines = strip_comments(open(os.path.join(inc, "routines", "isomap.hpp")).read())
+        (sig1, b1), (sig2, b2) = overloads(routines)
+        if "Landmarks" in sig1 or "Landmarks" not in sig2:
+            raise ValueError("overload order changed")
+        src1, flag1 = flag_index(b1, "first overload")
+        src2, flag2 = flag_index(b2, "landmark overload")
+        names = {"k": "r", "landmarks[k]": "l"}
+        if src1 != "k" or src2 != "landmarks[k]":
+            raise ValueError("unexpected source vertex expressions %r / %r" % (src1, src2))
+        if flag1 != "k":
+            raise ValueError("first overload: unexpected frontier flag index %r" % flag1)
+        if flag2 not in names:
+            raise ValueError("landmark overload: unexpected frontier flag index %r" % flag2)
+        return names[flag2]
+    flag = part("flag", get_flag)
+    flag2 = {"r": "k", "l": "landmarks[k]"}[flag]
+    steps = part("steps", lambda: isomap_steps(strip_comments(open(os.path.join(inc, "methods", "isomap.hpp")).read())))
+    sym = part("sym", lambda: dense_symmetrises(strip_comments(open(os.path.join(inc, "routines", "eigendecomposition.hpp")).read())))
     return """/-
 GENERATED by tools/translate_c04.py from /repo (include/tapkee/routines/isomap.hpp, methods/isomap.hpp,
 routines/eigendecomposition.hpp) — do not edit; regenerated on every run of check.py C04.
@@ -156,7 +274,7 @@ def isomapSteps : List Step := [%s]
 def denseSolverSymmetrises : Bool := %s
 
 end TapkeeVerif.Gen.Isomap
-""" % (flag2, names[flag2] if names[flag2] == "r" else "l", ", ".join(steps), "true" if sym else "false")
+""" % (flag2, flag, ", ".join(steps), "true" if sym else "false")
 
 
 if __name__ == "__main__":
